@@ -27,7 +27,6 @@ SPEC = {
     "assumptions": [
         "ts and start carry the same *time.Location and no monotonic clock reading (IsWithin's default branch compares time.Time values with ==)",
         "strings are printable ASCII",
-        "suffixes M and Y are modelled and tied differentially but not covered by C31_window (window_okb is false for them)",
         "QueryableNrecords is not part of the property and is not modelled",
     ],
     "level": "proof",
@@ -37,6 +36,6 @@ SPEC = {
                   "that is an exact unit multiple; finite reflection). Four refutation witnesses exhibit the defect classes outside the guards "
                   "(25-hour day, week outside UTC, zero multiplier, non-unit print). Tied to the code by translation and differential in-Coq evaluation.",
     "level_note": "No axioms. Trusted: Coq kernel/VM, gen translator, harness, zone-table dump. Modelled not verified: utils/timeframe.go and the Go "
-                  "library functions it calls (regexp, strconv, strings, fmt, time). Partial: suffixes M and Y have no window theorem.",
+                  "library functions it calls (regexp, strconv, strings, fmt, time). All seven suffixes are covered by C31_window under their guards.",
     "design_ref": "§6 C31",
 }
